@@ -124,3 +124,33 @@ wrapper("dict_charge_conjugates", "get_charge_conjugate_defs", ["C07", "C03"], "
 wrapper("list_charge_conjugate_decays", "get_charge_conjugate_decays", ["C07", "C03"], "'cdecay'")
 wrapper("list_lineshapePW_definitions", "get_lineshapePW_definitions", ["C07"], "'setlspw'")
 wrapper("global_photos_flag", "get_global_photos_flag", ["C07"], "'global_photos', 'yes', 'no'")
+
+# ---- Particle <NAME> <MASS> [<WIDTH>] -----------------------------------------------------------------------------------
+def particle_props(acc, S, n):
+    K = lambda j: f"{S}[{j}].children[0].value"
+    last = lambda j: f"forall(lambda l: implies({j} < l < {n}, {K('l')} != {K(j)}))"
+    E = lambda j: f"dget({acc}, {K(j)})"
+    return [
+        f"forallv(lambda k: implies(dhas({acc}, k), typ(k, 'str')))",
+        # every statement accounted for ...
+        f"forall(lambda j: implies(0 <= j < {n}, dhas({acc}, {K('j')})))",
+        # ... nothing invented ...
+        f"forallv(lambda k: implies(dhas({acc}, k), exists(lambda j: 0 <= j < {n} and {K('j')} == k)))",
+        # ... and the LAST statement of a name gives its mass, and its width when it states one
+        f"forall(lambda j: implies(0 <= j < {n} and {last('j')}, typ({E('j')}, 'dict') and dhas({E('j')}, 'mass') and dhas({E('j')}, 'width')))",
+        f"forall(lambda j: implies(0 <= j < {n} and {last('j')}, dget({E('j')}, 'mass') == float({S}[j].children[1].value)))",
+        f"forall(lambda j: implies(0 <= j < {n} and {last('j')} and len({S}[j].children) > 2, dget({E('j')}, 'width') == float({S}[j].children[2].value)))",
+    ]
+
+
+SP = "stmts(parsed_file, 'particle_def')"
+contract("decaylanguage.dec.dec.get_particle_property_definitions", types={"parsed_file": "obj:Tree"},
+         requires=["wf_labels(parsed_file, 'particle_def', 'alias')"],
+         ensures=["typ(result, 'dict') and isfresh(result)"] + particle_props("result", SP, f"len({SP})"),
+         # a width that is not stated is looked up in the particle table (through the aliases); an unknown name is an error
+         raises={"RuntimeError": None},
+         loops={"comp#0": {"invariant": ["typ(_acc, 'dict') and isfresh(_acc)",
+                                         "forallv(lambda k: implies(dhas(_acc, k), typ(dget(_acc, k), 'dict') and refnum(dget(_acc, k)) >= _loop_alloc))"]
+                                        + particle_props("_acc", "_seq", "_i"),
+                           "types": {"_acc": "dict"}}},
+         returns="dict", properties=["C07"])
